@@ -18,13 +18,30 @@ theorem RelD_more {d : Nat} {x y : Chain} (h : RelD d x y) (p : Nat) :
   · exact ⟨rfl, rfl, rfl, rfl, rfl, rfl, rfl, rfl⟩
   · exact ⟨rfl, rfl, rfl, rfl, rfl, rfl, rfl, rfl⟩
 
-/-- "Required or Desired" reads the same in both chains -/
-theorem RelD_reqdes {d : Nat} {x y : Chain} (h : RelD d x y) (hdes : (x.get d).c.desired = true) (p : Nat) :
-    ((y.get p).c.required || (y.get p).c.desired) = ((x.get p).c.required || (x.get p).c.desired) := by
+/-- the guard of `eliminateUnused` ("Required, Desired or auto-desired") reads the same in both chains -/
+theorem RelD_guard {d : Nat} {x y : Chain} (h : RelD d x y) (hw : ((x.get d).wanted || (x.get d).c.desired) = true) (p : Nat) :
+    ((y.get p).c.required || (y.get p).c.desired || (y.get p).wanted) = ((x.get p).c.required || (x.get p).c.desired || (x.get p).wanted) := by
   rw [h.2 p]
   by_cases hp : p = d
-  · rw [if_pos hp, hp, hdes]
-    simp [reqF]
+  · rw [if_pos hp, hp]
+    have : ((x.get d).c.required || (x.get d).c.desired || (x.get d).wanted) = true := by
+      cases h1 : (x.get d).wanted <;> cases h2 : (x.get d).c.desired <;> simp [h1, h2] at hw ⊢
+    rw [this]; simp [reqF]
+  · rw [if_neg hp]
+
+/-- the seed condition of the keep-closure reads the same in both chains -/
+theorem RelD_seed {d : Nat} {x y : Chain} (h : RelD d x y)
+    (hw : (x.get d).c.desired = true ∨ ((x.get d).wanted = true ∧ (x.get d).wantedInCluster = false)) (p : Nat) :
+    ((y.get p).c.required || (y.get p).c.desired || ((y.get p).wanted && !(y.get p).wantedInCluster))
+      = ((x.get p).c.required || (x.get p).c.desired || ((x.get p).wanted && !(x.get p).wantedInCluster)) := by
+  rw [h.2 p]
+  by_cases hp : p = d
+  · rw [if_pos hp, hp]
+    have : ((x.get d).c.required || (x.get d).c.desired || ((x.get d).wanted && !(x.get d).wantedInCluster)) = true := by
+      rcases hw with h1 | ⟨h1, h2⟩
+      · simp [h1]
+      · simp [h1, h2]
+    rw [this]; simp [reqF]
   · rw [if_neg hp]
 
 theorem keepClosure_RelD {d : Nat} {x y : Chain} (h : RelD d x y) (down : Bool) : ∀ (fuel : Nat) (toKeep keep : List Nat),
@@ -46,7 +63,8 @@ theorem keepClosure_RelD {d : Nat} {x y : Chain} (h : RelD d x y) (down : Bool) 
       simp only [hfilter]
       exact keepClosure_RelD h down fuel _ _
 
-theorem proposeEliminations_RelD {d : Nat} {x y : Chain} (h : RelD d x y) (hdes : (x.get d).c.desired = true) :
+theorem proposeEliminations_RelD {d : Nat} {x y : Chain} (h : RelD d x y)
+    (hdes : (x.get d).c.desired = true ∨ ((x.get d).wanted = true ∧ (x.get d).wantedInCluster = false)) :
     proposeEliminations y = proposeEliminations x := by
   unfold proposeEliminations
   simp only []
@@ -57,7 +75,7 @@ theorem proposeEliminations_RelD {d : Nat} {x y : Chain} (h : RelD d x y) (hdes 
         !(x.get i).excluded && ((x.get i).c.required || (x.get i).c.desired || ((x.get i).wanted && !(x.get i).wantedInCluster))) := by
     congr 1
     funext i
-    rw [(RelD_fields h i).2.2.1, RelD_reqdes h hdes i, (RelD_fields h i).2.2.2.1, (RelD_more h i).2.2.2.2.1]
+    rw [(RelD_fields h i).2.2.1, RelD_seed h hdes i]
   have hfuel : (y.map fun f => (f.usesIn ++ f.usesByp).length + f.usesRecv.length).sum
       = (x.map fun f => (f.usesIn ++ f.usesByp).length + f.usesRecv.length).sum := by
     rw [← map_range_get (fun f => (f.usesIn ++ f.usesByp).length + f.usesRecv.length) y,
@@ -81,38 +99,49 @@ theorem countExcluded_RelD {d : Nat} {x y : Chain} (h : RelD d x y) : countExclu
   exact (RelD_fields h j).2.2.1
 
 
-/-- what is known of provider `d` in the Desired reading, and stays true through pruning -/
+/-- what is known of provider `d` in the Desired / auto-desired reading, and stays true through pruning -/
 structure DesD (d : Nat) (x : Chain) : Prop where
   lt : d < x.length
   req : (x.get d).c.required = false
-  des : (x.get d).c.desired = true
+  want : (x.get d).c.desired = true ∨ ((x.get d).wanted = true ∧ (x.get d).wantedInCluster = false)
   shun : (x.get d).c.shun = false
   cl : (x.get d).c.cluster = 0
   ex : (x.get d).excluded = false
+
+theorem DesD_wd {d : Nat} {x : Chain} (h : DesD d x) : ((x.get d).wanted || (x.get d).c.desired) = true := by
+  rcases h.want with h1 | ⟨h1, _⟩
+  · simp [h1]
+  · simp [h1]
 
 theorem DesD_upd_other {d : Nat} {x : Chain} (h : DesD d x) (i : Nat) (g : IP → IP) (hid : i ≠ d) : DesD d (x.upd i g) := by
   have hget : (x.upd i g).get d = x.get d := by
     rw [get_upd]
     have : ¬ (d = i ∧ i < x.length) := fun hh => hid hh.1.symm
     rw [if_neg this]
-  exact ⟨by rw [upd_length]; exact h.lt, by rw [hget]; exact h.req, by rw [hget]; exact h.des, by rw [hget]; exact h.shun,
+  exact ⟨by rw [upd_length]; exact h.lt, by rw [hget]; exact h.req, by rw [hget]; exact h.want, by rw [hget]; exact h.shun,
     by rw [hget]; exact h.cl, by rw [hget]; exact h.ex⟩
 
 theorem DesD_upd_flags {d : Nat} {x : Chain} (h : DesD d x) (i : Nat) (g : IP → IP)
-    (hg : ∀ f, (g f).c = f.c ∧ (g f).excluded = f.excluded) : DesD d (x.upd i g) := by
-  have hget : ((x.upd i g).get d).c = (x.get d).c ∧ ((x.upd i g).get d).excluded = (x.get d).excluded := by
+    (hg : ∀ f, (g f).c = f.c ∧ (g f).excluded = f.excluded ∧ (g f).wanted = f.wanted) (hid : i ≠ d ∨ ∀ f, (g f).wantedInCluster = f.wantedInCluster) :
+    DesD d (x.upd i g) := by
+  have hget : ((x.upd i g).get d).c = (x.get d).c ∧ ((x.upd i g).get d).excluded = (x.get d).excluded ∧
+      ((x.upd i g).get d).wanted = (x.get d).wanted ∧ ((x.upd i g).get d).wantedInCluster = (x.get d).wantedInCluster := by
     rw [get_upd]; split
-    · rename_i hh; rw [hh.1]; exact hg _
-    · exact ⟨rfl, rfl⟩
-  exact ⟨by rw [upd_length]; exact h.lt, by rw [hget.1]; exact h.req, by rw [hget.1]; exact h.des, by rw [hget.1]; exact h.shun,
-    by rw [hget.1]; exact h.cl, by rw [hget.2]; exact h.ex⟩
+    · rename_i hh
+      rcases hid with hne | hwic
+      · exact absurd hh.1.symm hne
+      · rw [hh.1]; exact ⟨(hg _).1, (hg _).2.1, (hg _).2.2, hwic _⟩
+    · exact ⟨rfl, rfl, rfl, rfl⟩
+  exact ⟨by rw [upd_length]; exact h.lt, by rw [hget.1]; exact h.req, by rw [hget.1, hget.2.2.1, hget.2.2.2]; exact h.want,
+    by rw [hget.1]; exact h.shun, by rw [hget.1]; exact h.cl, by rw [hget.2.1]; exact h.ex⟩
 
 theorem DesD_of_FR {d : Nat} {x x' : Chain} (h : DesD d x) (hfr : FR x x') : DesD d x' := by
   have := hfr.2 d
   unfold flagsOnly at this
-  have hc : (x'.get d).c = (x.get d).c ∧ (x'.get d).excluded = (x.get d).excluded := by rw [← this]; exact ⟨rfl, rfl⟩
-  exact ⟨by rw [hfr.1]; exact h.lt, by rw [hc.1]; exact h.req, by rw [hc.1]; exact h.des, by rw [hc.1]; exact h.shun,
-    by rw [hc.1]; exact h.cl, by rw [hc.2]; exact h.ex⟩
+  have hc : (x'.get d).c = (x.get d).c ∧ (x'.get d).excluded = (x.get d).excluded ∧ (x'.get d).wanted = (x.get d).wanted ∧
+      (x'.get d).wantedInCluster = (x.get d).wantedInCluster := by rw [← this]; exact ⟨rfl, rfl, rfl, rfl⟩
+  exact ⟨by rw [hfr.1]; exact h.lt, by rw [hc.1]; exact h.req, by rw [hc.1, hc.2.2.1, hc.2.2.2]; exact h.want, by rw [hc.1]; exact h.shun,
+    by rw [hc.1]; exact h.cl, by rw [hc.2.1]; exact h.ex⟩
 
 /-- a trial pass that succeeds, in lockstep: the Required reading succeeds too -/
 theorem checkPass_sim_trial (d : Nat) : ∀ (todo : List Nat) (x y : Chain) (seen redo : List Nat) (x' : Chain) (redo' : List Nat),
@@ -137,10 +166,10 @@ theorem checkPass_sim_trial (d : Nat) : ∀ (todo : List Nat) (x y : Chain) (see
           intro e
           rw [e, hdd.req] at h
           simp only [Bool.false_eq_true, if_false] at h
-          rw [hdd.des, hdd.ex] at h
+          rw [DesD_wd hdd, hdd.ex] at h
           simp at h
         have hc : (y.get i).c = (x.get i).c := hf.2.2.2.2.2 hid
-        rw [hc, hf.2.2.2.1, hf.2.2.1, hf.1, hf.2.2.2.2.1]
+        rw [hc, hf.2.2.2.1 hid, hf.2.2.1, hf.1, hf.2.2.2.2.1]
         split at h
         · cases h
         · rename_i hr
@@ -167,7 +196,7 @@ theorem checkPass_sim_trial (d : Nat) : ∀ (todo : List Nat) (x y : Chain) (see
         · rename_i hl
           rw [if_neg hl]
           exact checkPass_sim_trial d todo _ _ _ _ x' redo' (RelD_upd hrel i (fun f => { f with cannot := true }) (fun f => rfl))
-            (DesD_upd_flags hdd i _ (fun f => ⟨rfl, rfl⟩)) h
+            (DesD_upd_flags hdd i _ (fun f => ⟨rfl, rfl, rfl⟩) (Or.inr fun f => rfl)) h
 
 theorem checkFlows_sim_trial (d : Nat) : ∀ (fuel : Nat) (todo : List Nat) (x y x' : Chain),
     RelD d x y → DesD d x → checkFlows false fuel todo x = .ok x' →
@@ -208,8 +237,7 @@ theorem validate_trial_RelD (d : Nat) (x y : Chain) (hrel : RelD d x y) (hdd : D
     have hl : y1.length = x1.length := r1.1
     have hl1 : x1.length = x.length := (markAll_FR _ x [] x1 rem hm).1
     rw [hl]
-    have hdd1 : DesD d x1 := ⟨by rw [hl1]; exact hdd.lt, by rw [r3]; exact hdd.req, by rw [r3]; exact hdd.des,
-      by rw [r3]; exact hdd.shun, by rw [r3]; exact hdd.cl, r2⟩
+    have hdd1 : DesD d x1 := DesD_of_FR hdd (markAll_FR _ x [] x1 rem hm)
     cases hc : checkFlows false (4 * x1.length * x1.length + 8) rem x1 with
     | ok x' =>
       obtain ⟨y', hy', rel'⟩ := checkFlows_sim_trial d _ rem x1 y1 x' r1 hdd1 hc
@@ -219,14 +247,25 @@ theorem validate_trial_RelD (d : Nat) (x y : Chain) (hrel : RelD d x y) (hdd : D
       exact Or.inr ⟨_, _, rfl, he'⟩
 
 
-theorem RelD_markL {d : Nat} (b : Bool) (gw : IP → Bool) (hgw : ∀ f, gw (reqF f) = gw f) : ∀ (l : List Nat) (x y : Chain), RelD d x y →
+theorem RelD_upd_other {d : Nat} {x y : Chain} (h : RelD d x y) (i : Nat) (g : IP → IP) (hid : i ≠ d) :
+    RelD d (x.upd i g) (y.upd i g) := by
+  refine ⟨by rw [upd_length, upd_length]; exact h.1, fun j => ?_⟩
+  rw [get_upd, get_upd, h.1]
+  by_cases hji : j = i ∧ i < x.length
+  · rw [if_pos hji, if_pos hji, h.2 i, if_neg hid]
+    have : ¬ j = d := fun e => hid (hji.1 ▸ e)
+    rw [if_neg this]
+  · rw [if_neg hji, if_neg hji]; exact h.2 j
+
+theorem RelD_markL {d : Nat} (b : Bool) (gw : IP → Bool) : ∀ (l : List Nat) (x y : Chain), d ∉ l → RelD d x y →
     RelD d (markL b gw l x) (markL b gw l y)
-  | [], _, _, h => h
-  | w :: l, x, y, h => by
+  | [], _, _, _, h => h
+  | w :: l, x, y, hd, h => by
     have hx : markL b gw (w :: l) x = markL b gw l (x.upd w (markG b gw)) := rfl
     have hy : markL b gw (w :: l) y = markL b gw l (y.upd w (markG b gw)) := rfl
     rw [hx, hy]
-    exact RelD_markL b gw hgw l _ _ (RelD_upd h w (markG b gw) (fun f => by unfold markG; rw [hgw]; rfl))
+    exact RelD_markL b gw l _ _ (fun hm => hd (List.mem_cons_of_mem _ hm))
+      (RelD_upd_other h w (markG b gw) (fun e => hd (by simp [e])))
 
 theorem markL_other' (b : Bool) (gw : IP → Bool) : ∀ (l : List Nat) (ch : Chain) (j : Nat), j ∉ l → (markL b gw l ch).get j = ch.get j
   | [], _, _, _ => rfl
@@ -240,7 +279,7 @@ theorem DesD_markL {d : Nat} (b : Bool) (gw : IP → Bool) (l : List Nat) (x : C
     DesD d (markL b gw l x) := by
   have hget := markL_other' b gw l x d hd
   have hlen := (markL_spec b gw l x).1
-  exact ⟨by rw [hlen]; exact h.lt, by rw [hget]; exact h.req, by rw [hget]; exact h.des, by rw [hget]; exact h.shun,
+  exact ⟨by rw [hlen]; exact h.lt, by rw [hget]; exact h.req, by rw [hget]; exact h.want, by rw [hget]; exact h.shun,
     by rw [hget]; exact h.cl, by rw [hget]; exact h.ex⟩
 
 /-- **a trial in lockstep** -/
@@ -252,7 +291,7 @@ theorem tryWithout_RelD {d : Nat} {x y : Chain} (hrel : RelD d x y) (hdd : DesD 
     have hwd : w ≠ d := fun e => hd (by simp [e])
     simp only []
     have hf := RelD_fields hrel w
-    rw [hf.2.2.2.1, (RelD_more hrel w).2.2.2.2.1]
+    rw [hf.2.2.2.1 hwd, (RelD_more hrel w).2.2.2.2.1]
     split
     · exact ⟨hrel, hdd⟩
     · have r1 := RelD_upd hrel w (fun f => { f with excluded := true }) (fun f => rfl)
@@ -264,17 +303,17 @@ theorem tryWithout_RelD {d : Nat} {x y : Chain} (hrel : RelD d x y) (hdd : DesD 
         exact ⟨RelD_upd r1 w (fun f => { f with excluded := false }) (fun f => rfl),
           DesD_upd_other d1 w (fun f => { f with excluded := false }) hwd⟩
   · simp only []
-    have r1 := RelD_markL (d := d) true (fun f => if f.wantedInCluster then false else f.wanted) (fun f => rfl) without x y hrel
+    have r1 := RelD_markL (d := d) true (fun f => if f.wantedInCluster then false else f.wanted) without x y hd hrel
     have d1 := DesD_markL true (fun f => if f.wantedInCluster then false else f.wanted) without x hdd hd
     unfold markL markG at r1 d1
     rcases validate_trial_RelD d _ _ r1 d1 with ⟨x', y', hx', hy', rel'⟩ | ⟨e, e', hx', hy'⟩
     · rw [hx', hy']
-      have r2 := RelD_markL (d := d) true (fun f => if f.wantedInCluster then true else f.wanted) (fun f => rfl) without x' y' rel'
+      have r2 := RelD_markL (d := d) true (fun f => if f.wantedInCluster then true else f.wanted) without x' y' hd rel'
       have d2 := DesD_markL true (fun f => if f.wantedInCluster then true else f.wanted) without x' (DesD_of_FR d1 (validate_FR false _ _ hx')) hd
       unfold markL markG at r2 d2
       exact ⟨r2, d2⟩
     · rw [hx', hy']
-      have r2 := RelD_markL (d := d) false (fun f => if f.wantedInCluster then true else f.wanted) (fun f => rfl) without _ _ r1
+      have r2 := RelD_markL (d := d) false (fun f => if f.wantedInCluster then true else f.wanted) without _ _ hd r1
       have d2 := DesD_markL false (fun f => if f.wantedInCluster then true else f.wanted) without _ d1 hd
       unfold markL markG at r2 d2
       exact ⟨r2, d2⟩
